@@ -15,7 +15,7 @@ import LolHtml.Spec.Edit
 import LolHtml.Model.EditDoc
 
 namespace LolHtml.Spec.EditDoc
-open LolHtml LolHtml.Model LolHtml.Spec.Edit
+open LolHtml LolHtml.EditModel LolHtml.Spec.Edit
 
 /-- An open element: its lower-case name, the selector handlers it matched, and — if an element
 handler ran on it — its region edits. -/
